@@ -209,11 +209,14 @@ def loader(chk, f, E, mol, ens):
         chk.ok("C09.R4", f"{f.key}:definite-assignment", f.where(), "every local read is assigned on all paths")
     # otype: the two string spellings map to the classes, and a class given as otype passes through untouched
     norms, clobber = {}, []
-    for st in walk_no_nested(f.node):
+    from ..canon import ifchain
+
+    fo = ifchain(f, {"otype"})  # the otype normalisation is read as an if / elif chain
+    for st in walk_no_nested(fo.node):
         if isinstance(st, ast.Assign) and norm(st.targets[0]) == "otype":
             # the assignment must sit in the *body* of an if/elif whose test is `otype == "<literal>"` (or `otype is None`)
             ok_guard = False
-            for g in walk_no_nested(f.node):
+            for g in walk_no_nested(fo.node):
                 if isinstance(g, ast.If) and any(x is st for x in g.body):
                     conj = g.test.values if isinstance(g.test, ast.BoolOp) and isinstance(g.test.op, ast.Or) else [g.test]
                     lits = []
